@@ -112,7 +112,7 @@ func checkC18(c *Check) {
 				return cl != nil && cl.Call.StaticCallee() == byName["Query"] && recv(cl.Call.Args[0]) && name(cl.Call.Args[1]) && (len(cl.Call.Args) < 3 || vNil(cl.Call.Args[2]))
 			}
 		}
-		empty := edgesWhere(fn, cCmp(token.EQL, v, vConstStr("")), true)
+		empty := edgesWhere(fn, cEmptyStr(v), true)
 		has := edgesWhere(fn, cCmp(token.GTR, vLen(defP), vConstInt(0)), true)
 		isDef := vElem(defP, vConstInt(0))
 		var defRets, otherRets []ssa.Instruction
@@ -165,6 +165,32 @@ func checkC18(c *Check) {
 			}
 		})
 		okQ := false
+		if next == nil {
+			// vs, ok := c.Request().URL.Query()[name]: present ⇒ vs; default / empty only when absent
+			var lk *ssa.Lookup
+			allInstrs(fn, func(in ssa.Instruction) {
+				if l, ok := in.(*ssa.Lookup); ok && l.CommaOk && vCall("(*net/url.URL).Query")(l.X) && vParam(fn, 1)(l.Index) {
+					lk = l
+				}
+			})
+			if lk != nil {
+				present := edgesWhere(fn, cBool(vExtract(1, vIs(lk))), true)
+				absent := edgesWhere(fn, cBool(vExtract(1, vIs(lk))), false)
+				okQ = len(present) > 0 && len(absent) > 0
+				other := func(in ssa.Instruction) bool {
+					r, ok := in.(*ssa.Return)
+					return ok && !vExtract(0, vIs(lk))(r.Results[0])
+				}
+				for e := range present {
+					if in, _ := (Query{Fn: fn}).Reach(e.B.Succs[e.S], 0, other); in != nil {
+						okQ = false
+					}
+				}
+				if ok, _ := guardedBy(fn, absent, other); !ok {
+					okQ = false
+				}
+			}
+		}
 		if next != nil {
 			found := edgesWhere(fn, cCmp(token.EQL, vExtract(1, vIs(next)), vParam(fn, 1)), true)
 			exh := edgesWhere(fn, cBool(vExtract(0, vIs(next))), false)
@@ -223,6 +249,12 @@ func checkC18(c *Check) {
 			if !isC || strings.HasPrefix(callName(&cl.Call), "strconv.") == false {
 				return
 			}
+			if t.fn == "strconv.Atoi" && callName(&cl.Call) == "strconv.ParseInt" && src(cl.Call.Args[0]) && vConstInt(10)(cl.Call.Args[1]) && vConstInt(0)(cl.Call.Args[2]) {
+				// Atoi(s) is documented as ParseInt(s, 10, 0) converted to int
+				ok = true
+				call = cl
+				return
+			}
 			if callName(&cl.Call) != t.fn {
 				call = cl
 				return
@@ -242,8 +274,14 @@ func checkC18(c *Check) {
 		retOK := false
 		if call != nil {
 			allInstrs(fn, func(in ssa.Instruction) {
-				if r, isR := in.(*ssa.Return); isR && vExtract(0, vIs(call))(r.Results[0]) {
-					retOK = true
+				if r, isR := in.(*ssa.Return); isR {
+					rv := strip(r.Results[0])
+					if cv, isCv := rv.(*ssa.Convert); isCv && isIntT(cv.Type()) {
+						rv = cv.X
+					}
+					if vExtract(0, vIs(call))(rv) {
+						retOK = true
+					}
 				}
 			})
 		}
